@@ -13,7 +13,9 @@ from c15 import T
 INF = float('inf')
 NAN = float('nan')
 EPS = 2.0 ** -52
-STATS = {'g0_nan': 0, 'g0_finite': 0, 'n0': 0, 'interior': 0, 'interior_by_cap': 0, 'boundary': 0,
+UNDERFLOW_DSQ = 2.0 ** -960
+KEY_UNDERFLOW = 'C11-steihaug-curvature-test-on-underflowed-dBd'
+STATS = {'underflow_finding': 0, 'g0_nan': 0, 'g0_finite': 0, 'n0': 0, 'interior': 0, 'interior_by_cap': 0, 'boundary': 0,
          'boundary_after_iter0': 0, 'negcurv': 0, 'iters_ge_3': 0, 'nan_nonzero_g': 0, 'ntr': 0, 'ntr_exc': 0}
 
 
@@ -137,7 +139,7 @@ def gen_ntr(rng):
     radius = 2.0 ** rng.randint(-30, 30)
     if rng.random() < 0.03:
         radius = rng.choice([INF, NAN, 0.0, 2.0 ** -53, -1.0])
-    ts = rng.choice([1.0, 0.1, 0.0]); tr = rng.choice([0.5, 1.0]); tm = rng.choice([INF, 1e-3])
+    ts = rng.choice([1.0, 0.1, 1e-3]); tr = rng.choice([0.5, 1.0]); tm = rng.choice([INF, 1e-3])
     mf = rng.choice([1.0, 2.0, 0.0, 10.0])
     flat = [H[i][j] for i in range(n) for j in range(n)]
     return (f'ntr {vec2p(p)} ' + ' '.join(f2h(a) for a in flat) + f' {len(J)} ' +
@@ -160,6 +162,9 @@ def fixed_ops():
         f'cg 1 {f2h(1.0)} {f2h(0.0)} {f2h(0.25)} {pars}',                              # zero curvature
         f'cg 2 {f2h(1.0)} {f2h(1.0)} {f2h(1.0)} {f2h(0.0)} {f2h(0.0)} {f2h(-1.0)} {f2h(8.0)} {pars}',
         f'cg 1 {f2h(1.0)} {f2h(2.0)} {f2h(0.5)} {pars}',                               # ‖z+αd‖ == Δ exactly (>= test)
+        # known finding: tol_max = 0, max_iter_factor = 10, PD 1×1 B — the curvature underflows after 11 iterations
+        'cg 1 bf6d168356294113 3f47b6b34668f8bb 4063a0487e9bdb95 3ff0000000000000 3fe0000000000000 '
+        '0000000000000000 4024000000000000',
     ]
     return ops
 
@@ -204,7 +209,20 @@ def monitor_cg(t, o, st):
     Δ = t.flt(); ts = t.flt(); tr = t.flt(); tm = t.flt(); mf = t.flt()
     val = o.flt(); s = o.vec(); nBd = o.nat(); nEval = o.nat()
     o.vec(); o.vec(); o.vec()
-    neg_seen = o.nat() == 1
+    dtok = o.tok()
+    neg_seen = dtok != 'none'
+    dsq = h2f(dtok) if neg_seen else None
+    # Known finding (known-findings.json, key below): with a zero tolerance the recurrence residual keeps
+    # shrinking geometrically until ‖d‖² and d·Bd underflow; the test `dBd <= 0` then fires on a 0 that is
+    # not negative curvature and get_boundaries_intersections works on a subnormal `a = ‖d‖²`.  A violation
+    # is attributed to that finding only if the real run took the curvature exit with ‖d‖² below 2^-960.
+    uf_key = KEY_UNDERFLOW if (neg_seen and 0 <= dsq < UNDERFLOW_DSQ) else None
+
+    def viol(msg):
+        if uf_key:
+            STATS['underflow_finding'] += 1
+            return (msg + f' [curvature test fired on underflowed quantities: ‖d‖² = {dsq!r}]', uf_key)
+        return msg
     if len(s) != n:
         return 'step has the wrong size'
     if n == 0:
@@ -231,7 +249,7 @@ def monitor_cg(t, o, st):
     # (1) feasibility: ‖s‖ ≤ Δ (1 + few ulps)
     tol1 = Fr(32 * (n + 4)) * Fr(EPS)
     if ss > D * D * (1 + tol1):
-        return f'‖s‖ = {math.sqrt(float(ss))!r} > Δ = {Δ!r} (ratio−1 = {float(ss / (D * D)) - 1:.3g})'
+        return viol(f'‖s‖ = {math.sqrt(float(ss))!r} > Δ = {Δ!r} (ratio−1 = {float(ss / (D * D)) - 1:.3g})')
     # (2) returned value = gᵀs + ½ sᵀBs for the returned step
     m = dotF(G, S) + dotF(S, BS) / 2
     absB = [sum(abs(B[i][j]) * abs(S[j]) for j in range(n)) for i in range(n)]
@@ -254,10 +272,10 @@ def monitor_cg(t, o, st):
         M = sum(abs(a) for a in G) * smax + n * n * bmax * smax * smax
         marg = Fr(64 * (n + 2) * max(1, nBd)) * Fr(EPS) * M + Fr(2.0 ** -1070)
         if Fr(val) > marg:
-            return f'returned model value {val!r} > 0'
+            return viol(f'returned model value {val!r} > 0')
         if Fr(val) > mC + marg:
-            return (f'returned model value {val!r} > model value at the Cauchy point {float(mC)!r} '
-                    f'(excess {float(Fr(val) - mC):.3g}, margin {float(marg):.3g})')
+            return viol(f'returned model value {val!r} > model value at the Cauchy point {float(mC)!r} '
+                        f'(excess {float(Fr(val) - mC):.3g}, margin {float(marg):.3g})')
     # classification by what the real run did
     on_bdry = ss >= D * D * (1 - tol1)
     if on_bdry:
@@ -270,8 +288,8 @@ def monitor_cg(t, o, st):
     if neg_seen or nEval == 2:
         STATS['negcurv'] += 1
         if not on_bdry:
-            return (f'negative curvature was encountered (d·Bd ≤ 0 seen by the Hessian callback) but the step is '
-                    f'strictly inside: ‖s‖/Δ = {math.sqrt(float(ss / (D * D)))!r}')
+            return viol(f'negative curvature was encountered (d·Bd ≤ 0 seen by the Hessian callback) but the step '
+                        f'is strictly inside: ‖s‖/Δ = {math.sqrt(float(ss / (D * D)))!r}')
     if gg > 0 and gBg < 0 and not on_bdry and -gBg > Fr(64 * n) * Fr(EPS) * sum(abs(G[i]) * sum(abs(B[i][j]) * abs(G[j]) for j in range(n)) for i in range(n)):
         return f'gᵀBg = {float(gBg)!r} < 0 (negative curvature along the first direction) but the step is interior'
     # (4) interior ⇒ residual rule or iteration cap
